@@ -498,22 +498,84 @@ def gen_timing(src: Path):
         default_timeout_ms = 60000
 
     graces = []
+    grace_problems = []
     try:
-        sc = ast.parse((src / "transports/stdio/stdio_client.py").read_text())
+        scp = src / "transports/stdio/stdio_client.py"
+        sc = ast.parse(scp.read_text())
+        consts = {}
+        for n in sc.body:
+            if isinstance(n, ast.Assign) and len(n.targets) == 1 and isinstance(n.targets[0], ast.Name):
+                try:
+                    consts[n.targets[0].id] = ast.literal_eval(n.value)
+                except Exception:
+                    pass
+        funcs = {}
+        for n in ast.walk(sc):
+            if isinstance(n, (ast.FunctionDef, ast.AsyncFunctionDef)):
+                funcs.setdefault(n.name, n)
+
+        def value_of(node, binding):
+            try:
+                return float(ast.literal_eval(node))
+            except Exception:
+                pass
+            if isinstance(node, ast.Name):
+                if node.id in binding:
+                    return binding[node.id]
+                if isinstance(consts.get(node.id), (int, float)):
+                    return float(consts[node.id])
+            if isinstance(node, ast.Attribute) and isinstance(consts.get(node.attr), (int, float)):
+                return float(consts[node.attr])
+            return None
+
+        def scan(fn, binding, depth=0):
+            """timeouts of fail_after / move_on_after / wait_for reached from `fn`, in source order"""
+            out = []
+            for n in ast.walk(fn):
+                if not isinstance(n, ast.Call):
+                    continue
+                name = getattr(n.func, "attr", None) or getattr(n.func, "id", None)
+                if name in ("fail_after", "move_on_after") and n.args:
+                    out.append((n.lineno, n.col_offset, value_of(n.args[0], binding)))
+                elif name in funcs and name != fn.name and depth < 3:
+                    callee = funcs[name]
+                    params = [a.arg for a in callee.args.args if a.arg != "self"]
+                    b2 = {}
+                    for prm, arg in zip(params, n.args):
+                        v = value_of(arg, binding)
+                        if v is not None:
+                            b2[prm] = v
+                    for kw in n.keywords:
+                        v = value_of(kw.value, binding)
+                        if kw.arg and v is not None:
+                            b2[kw.arg] = v
+                    for (_, _, v) in scan(callee, b2, depth + 1):
+                        out.append((n.lineno, n.col_offset, v))
+            out.sort(key=lambda x: (x[0], x[1]))
+            return out
+
         f = _find_func(sc, "_terminate_process")
-        for n in ast.walk(f):
-            if isinstance(n, ast.Call) and getattr(n.func, "attr", None) == "fail_after" and n.args:
-                graces.append(int(round(float(ast.literal_eval(n.args[0])) * 1000)))
+        vals = [v for (_, _, v) in scan(f, {})]
+        if any(v is None for v in vals):
+            grace_problems.append("stdio_client.py: a grace period of _terminate_process is not a literal or module constant")
+        graces = [int(round(v * 1000)) for v in vals if v is not None]
     except Exception as ex:  # noqa
-        report["untranslatable"].append(f"stdio_client.py: _terminate_process: {ex}")
+        grace_problems.append(f"stdio_client.py: _terminate_process: {ex}")
     if len(graces) != 2:
-        report["untranslatable"].append(f"stdio_client.py: expected two fail_after grace periods, got {graces}")
+        grace_problems.append(f"stdio_client.py: expected two grace periods in _terminate_process, got {graces}")
         graces = (graces + [1000, 1000])[:2]
-    ok = "true" if not report["untranslatable"] else "false"
+    report["untranslatable"] += ["grace: " + g for g in grace_problems]
+    grace_ok = "true" if not grace_problems else "false"
+    report["untranslatable_core"] = [u for u in report["untranslatable"] if not u.startswith("grace: ")]
+    ok = "true" if not report["untranslatable_core"] else "false"
     lean = f"""-- GENERATED by verifpy/translate.py from send_message.py, stdio_client.py. Do not edit.
 namespace Verif.Gen.Timing
 
+/-- poll period and default timeout were found -/
 def translatable : Bool := {ok}
+
+/-- the two grace periods of `_terminate_process` were found -/
+def graceTranslatable : Bool := {grace_ok}
 
 /-- default `sub_timeout` of `_await_response`, milliseconds -/
 def pollMs : Nat := {sub_ms}
